@@ -9,6 +9,14 @@ import (
 
 const numShapes = 7
 
+// shapeOrder lists the shapes most useful first (NSHAPES bounds the quick tiers).
+var shapeOrder = [...]int{0, 3, 2, 5, 4, 6, 1}
+
+func chooseShape() int {
+	n := vx.Param("NSHAPES", numShapes)
+	return shapeOrder[vx.Choose("data", n)]
+}
+
 func mkData(shape int) any {
 	switch shape {
 	case 0:
@@ -65,7 +73,12 @@ func addFrag(x Expr, rf []vref.PFrag, kind int) (Expr, []vref.PFrag) {
 		k := string([]byte{vx.Byte("key")})
 		return x.C(k), append(rf, vref.PFrag{Kind: vref.FChild, Key: k})
 	case kNth:
-		i := vx.Int("nth")
+		var i int
+		if nb := vx.Param("NTHB", 0); nb > 0 {
+			i = vx.IntIn("nth", -nb, nb)
+		} else {
+			i = vx.Int("nth")
+		}
 		return x.N(i), append(rf, vref.PFrag{Kind: vref.FNth, N: i})
 	case kWild:
 		return x.W(), append(rf, vref.PFrag{Kind: vref.FWild})
@@ -194,7 +207,7 @@ func sliceCase(rf []vref.PFrag) string {
 // every fragment kind in every position (1..MAXF fragments), symbolic
 // indexes / bounds / keys / filter constants.
 func VerifC05_Get() {
-	shape := vx.Choose("data", numShapes)
+	shape := chooseShape()
 	data := mkData(shape)
 	x, rf, desc := buildPath()
 	vx.Key("data", shape)
